@@ -23,7 +23,7 @@ ASSUMPTIONS = [
 ]
 OUTSIDE = ["float32 rounding of y", "what the Gibbs sampler computes from the training arrays (C08)"]
 RULE = "per-plate mask, chunk counts and batches are solver-enumerated; observed values stay symbolic, masked values are poison."
-BUDGET_S = {"quick": 240, "thorough": 1500}
+BUDGET_S = {"quick": 600, "thorough": 3000}
 TASK_QUOTA = 60
 
 # (row 2 repeats the condition of row 0 on another plate: replicate measurements are experiments of their own)
